@@ -61,16 +61,18 @@ def run(ctx):
     for np_, nt in sizes:
         mod, cfg = mcgen.write_mc(d, "abs%d" % np_, "Compound", {"NP": np_, "NT": nt},
                                   invariants=("OneAfterAnother", "CompletesOnceAfterLast"), deadlock=True)
-        ctx.tlc_check(d, mod, cfg, must_cover=("TaskStart", "TaskEnd", "PoolDone", "CompoundDone"), workers=2)
+        ctx.tlc_check(d, mod, cfg, must_cover=("TaskStart", "TaskEnd", "PoolDone", "CompoundDone"), workers=2,
+                      jvm=ptgrun.JVM_SHORT)
         mod, cfg = mcgen.write_mc(d, "impl%d" % np_, "CompoundImpl", {"NP": np_, "NT": nt, "ReadyBeforeStartup": False},
                                   invariants=("CompletesOnceAfterLast", "OneAfterAnother", "CompletesAtEnd", "ContextCount"),
                                   deadlock=True)
-        ctx.tlc_check(d, mod, cfg, must_cover=("Startup", "TaskStart", "TaskEnd", "MemberDone"), workers=2)
+        ctx.tlc_check(d, mod, cfg, must_cover=("Startup", "TaskStart", "TaskEnd", "MemberDone"), workers=2,
+                      jvm=ptgrun.JVM_SHORT)
     # the order of scheduling.c:parsec_context_add_taskpool (taskpool_ready before the startup hook): the model must
     # show the early completion (this is what the real runs below exhibit as long as compound.c is not repaired)
     mod, cfg = mcgen.write_mc(d, "impl_ready_first", "CompoundImpl", {"NP": 2, "NT": [1, 1], "ReadyBeforeStartup": True},
                               invariants=("CompletesOnceAfterLast", "OneAfterAnother"), deadlock=True)
-    r = ctx.tlc_check(d, mod, cfg, expect_ok=False, workers=1)
+    r = ctx.tlc_check(d, mod, cfg, expect_ok=False, workers=1, jvm=ptgrun.JVM_SHORT)
     if r.violated != "CompletesOnceAfterLast":
         raise tlc.TLCError("sensitivity self-test: ready-before-startup must violate CompletesOnceAfterLast, got %r" % r.violated)
     ctx.exhaustive = True
